@@ -339,6 +339,6 @@ def selftest():
                     "arg": ["grid"], "shape": []}, "outcome": ["table_value", ["none"]], "axes": ["ne", "te"]}
     good = replay(rec, None)
     bad = replay(dict(rec, outcome=["zero"]), None)
-    ok = not good and bool(bad)
+    ok = not any("sig" in x for x in good) and any("sig" in x for x in bad)
     print("C07 selftest:", "ok" if ok else "FAILED", good[:1], bad[:1])
     return 0 if ok else 2
